@@ -131,6 +131,11 @@ pub fn configs(tier: Tier) -> Vec<Config> {
         (vec![], vec![1]),
         (vec!["ab".into()], vec![1, 2, 4]),
         (vec!["a".into(), "ab".into(), "aba".into(), "あ".into(), "1a".into()], vec![1, 2, 4]),
+        // only multi-byte words (byte length > character count for every word, the shortest included)
+        (vec!["あ".into()], vec![1, 2]),
+        (vec!["あa".into(), "ああ".into(), "aあb".into()], vec![1, 2]),
+        // a suffix chain (each word is a proper suffix of the next) next to a prefix pair
+        (vec!["b".into(), "ab".into(), "aab".into(), "1".into(), "1a".into()], vec![1, 3]),
     ];
     for &cw in &sizes {
         for &cn in &sizes {
@@ -241,7 +246,7 @@ pub fn run(tier: Tier) -> ! {
     chk.sample(json!({"cfg": "cw=2 cn=2 tw=1 tn=3 dict=[a,ab,aba,あ,1a] bucket=2", "sentence": "ab1a", "labels": "WUN", "expected_examples": 2}));
     chk.assume("reference features: n-grams of length 1..N fully inside [i+1-W, i+1+W) with rel = start-(i+1); one left/inside/right(bucket) feature per dictionary-word occurrence touching the boundary, with multiplicity");
     chk.finish(
-        "every (char window, char n, type window, type n) in the grid x 7 dictionary/bucket variants x every sentence up to the bound over {a,b,あ,1} x every {N,W,U} label vector, alone and (sub-sampled) in pairs; the decoded example store must equal, as a multiset, one example per annotated boundary with the documented features; non-trivial = has an unknown boundary or a dictionary; distinct by construction",
+        "every (char window, char n, type window, type n) in the grid x 13 dictionary/bucket variants (none, one word, prefix-related words, only multi-byte words, a suffix chain) x every sentence up to the bound over {a,b,あ,1} x every {N,W,U} label vector, alone and (sub-sampled) in pairs; the decoded example store must equal, as a multiset, one example per annotated boundary with the documented features; non-trivial = has an unknown boundary or a dictionary; distinct by construction",
         true,
         &replay,
     )
